@@ -331,6 +331,84 @@ def finish(prop, tier, seed, t0, build, findings, coverage, assumptions, broken=
     return 1 if violations else 0
 
 
+# ------------------------------------------------------------------ how much of the modelled code the correspondence inputs execute
+
+def _code_objects(obj):
+    """the code objects of a function / method / property / class (with the closures defined inside)"""
+    import types
+    out = []
+
+    def rec(co):
+        out.append(co)
+        for k in co.co_consts:
+            if isinstance(k, types.CodeType):
+                rec(k)
+    if isinstance(obj, property):
+        for f in (obj.fget, obj.fset, obj.fdel):
+            if f is not None:
+                out.extend(_code_objects(f))
+        return out
+    f = getattr(obj, '__func__', obj)
+    f = getattr(f, '__wrapped__', f)
+    co = getattr(f, '__code__', None)
+    if co is not None:
+        rec(co)
+    return out
+
+
+def modelled_code_coverage(targets, thunks, limit=800):
+    """Run the thunks (calls into the real code) under a line tracer restricted to the target functions and report,
+    per target, how many of its executable lines ran and which did not.  targets: [(module name, dotted attribute)].
+    A measurement of the reach of the correspondence inputs over the code the model transcribes - not a verdict."""
+    import importlib
+    codes = {}
+    lines = {}
+    for mod, attr in targets:
+        try:
+            obj = importlib.import_module(mod)
+            for part in attr.split('.'):
+                obj = obj.__dict__[part] if isinstance(obj, type) and part in obj.__dict__ else getattr(obj, part)
+        except Exception as e:
+            lines['%s.%s' % (mod, attr)] = {'error': 'not found: %s' % e}
+            continue
+        name = '%s.%s' % (mod.split('.', 1)[-1], attr)
+        want = set()
+        for co in _code_objects(obj):
+            codes[co] = name
+            first = co.co_firstlineno
+            for _, _, ln in co.co_lines():
+                if ln is not None and ln != first:
+                    want.add(ln)
+        lines[name] = {'want': want, 'hit': set()}
+
+    def local(frame, event, arg):
+        if event == 'line':
+            lines[codes[frame.f_code]]['hit'].add(frame.f_lineno)
+        return local
+
+    def tracer(frame, event, arg):
+        return local if frame.f_code in codes else None
+    old = sys.gettrace()
+    sys.settrace(tracer)
+    try:
+        for t in list(thunks)[:limit]:
+            try:
+                t()
+            except Exception:
+                pass
+    finally:
+        sys.settrace(old)
+    out = {}
+    for name, d in lines.items():
+        if 'error' in d:
+            out[name] = d
+            continue
+        hit = d['hit'] & d['want']
+        miss = sorted(d['want'] - hit)
+        out[name] = {'executable_lines': len(d['want']), 'executed': len(hit), 'not_executed': miss[:25]}
+    return out
+
+
 # ------------------------------------------------------------------ watchdog pool (for code that cannot be interrupted)
 
 def _wd_worker(fn, conn):
